@@ -145,3 +145,43 @@ pub fn count(st: &mut Stats, cond: bool, class: &str) {
         st.class(class);
     }
 }
+
+/// Well-formedness of a parse error's text (C05): the header designates a line
+/// of the input, the echoed line is that line, the caret range lies inside it.
+pub fn error_wellformed(input: &str, shown: &str) -> Result<(usize, usize, usize), String> {
+    let mut lines = shown.split('\n');
+    let header = lines.next().ok_or("empty error text")?;
+    let rest = header.strip_prefix("Filter parsing error (").ok_or_else(|| format!("unexpected header {header:?}"))?;
+    let rest = rest.strip_suffix("):").ok_or_else(|| format!("unexpected header {header:?}"))?;
+    let (l, c) = rest.split_once(':').ok_or_else(|| format!("unexpected header {header:?}"))?;
+    let l: usize = l.parse().map_err(|_| format!("bad line number in {header:?}"))?;
+    let c: usize = c.parse().map_err(|_| format!("bad column in {header:?}"))?;
+    if l == 0 || c == 0 {
+        return Err(format!("line/column must be 1-based: {header:?}"));
+    }
+    let in_lines: Vec<&str> = input.split('\n').collect();
+    let line = *in_lines.get(l - 1).ok_or_else(|| format!("line {l} is not a line of the input ({} lines)", in_lines.len()))?;
+    let echoed = lines.next().ok_or("missing echoed line")?;
+    if echoed != line {
+        return Err(format!("echoed line {echoed:?} is not line {l} of the input {line:?}"));
+    }
+    let caret = lines.next().ok_or("missing caret line")?;
+    let spaces = caret.bytes().take_while(|b| *b == b' ').count();
+    let carets = caret[spaces..].bytes().take_while(|b| *b == b'^').count();
+    if spaces != c - 1 {
+        return Err(format!("caret line has {spaces} spaces for column {c}"));
+    }
+    if carets == 0 {
+        return Err("no caret".into());
+    }
+    if c - 1 > line.len() {
+        return Err(format!("column {c} is beyond the line (len {})", line.len()));
+    }
+    if !line.is_char_boundary(c - 1) {
+        return Err(format!("column {c} is inside a multi-byte character"));
+    }
+    if c - 1 + carets > line.len() + 1 {
+        return Err(format!("caret range {}..{} exceeds the line (len {})", c - 1, c - 1 + carets, line.len()));
+    }
+    Ok((l, c, carets))
+}
